@@ -65,7 +65,8 @@ def call_class(root, extdir, call, extra_tmp=()):
         if rel == ".":
             return "root"
         top = rel.split(os.sep)[0]
-        return {"tmp": "tmp", "index-v5": "index", "content-v2": "content"}.get(top, "other")
+        return {"tmp": "tmp", "index-v5": "index", "content-v2": "content"}.get(
+            top, "root_other" if p.startswith(root) else "other")
     a = area(path.replace(" (deleted)", ""))
     a1 = area(p1.replace(" (deleted)", "")) if p1 else a
     depth = len(os.path.relpath(path.replace(" (deleted)", ""), root).split(os.sep)) if path.startswith(root) else 0
